@@ -19,6 +19,9 @@ Theorem C15_discipline :
          IO_PROPSET_WRITE_FLUSHES = true /\
          IO_FINISH_PROPAGATES = true /\ IO_FLUSH_PROPAGATES = true /\ IO_EXEC_PROPAGATES = true.
 Proof. exact discipline_now. Qed.
+(* Package::create propagates the error of its own final save *)
+Theorem C15_create_propagates : IO_CREATE_PROPAGATES = true.
+Proof. exact create_propagates_now. Qed.
 
 (* a flushing write path that reports success has landed every byte, in order -- for every fault schedule *)
 Theorem C15_durable :
@@ -69,6 +72,7 @@ Theorem C15_unflushed_refuted :
 Proof. exact write_path_unflushed_loses. Qed.
 
 Print Assumptions C15_discipline.
+Print Assumptions C15_create_propagates.
 Print Assumptions C15_durable.
 Print Assumptions C15_save_durable.
 Print Assumptions C15_same_as_fault_free.
